@@ -150,14 +150,16 @@ func seedModel(root string, q []string, id int) error {
 // storeListing: every manifest file at depth 4 with the identity (system prompt) of its model
 func storeListing(root string) []any {
 	out := []any{}
-	matches, _ := filepath.Glob(filepath.Join(root, "manifests", "*", "*", "*", "*"))
+	// the root may contain glob metacharacters: list through a DirFS, never through a pattern built from the root
+	matches, _ := fs.Glob(os.DirFS(root), "manifests/*/*/*/*")
 	sort.Strings(matches)
-	for _, p := range matches {
+	for _, m := range matches {
+		p := root + "/" + m
 		fi, err := os.Stat(p)
 		if err != nil || fi.IsDir() {
 			continue
 		}
-		rel, _ := filepath.Rel(filepath.Join(root, "manifests"), p)
+		rel := strings.TrimPrefix(m, "manifests/")
 		id := -1
 		var m struct {
 			Layers []struct {
@@ -336,9 +338,10 @@ func main() {
 					return map[string]any{"harness_error": err.Error()}
 				}
 			}
+			disk, _ := fs.Glob(os.DirFS(dir), "manifests/*/*/*/*")
 			links, err := server.VerifC13Links(dir)
 			if err != nil {
-				return map[string]any{"harness_error": err.Error()}
+				return map[string]any{"dir": hx.Hex(dir), "disk": hx.HexList(disk), "links_error": err.Error()}
 			}
 			var res []any
 			for _, name := range hx.UnhexList(c["names"]) {
@@ -350,7 +353,7 @@ func main() {
 				_, statErr := os.Stat(p)
 				res = append(res, map[string]any{"code": 0, "path": hx.Hex(p), "rel": rel(dir, p), "exists": statErr == nil})
 			}
-			return map[string]any{"dir": hx.Hex(dir), "links": hx.HexList(links), "res": res}
+			return map[string]any{"dir": hx.Hex(dir), "links": hx.HexList(links), "disk": hx.HexList(disk), "res": res}
 		case "existing":
 			// a real store below the scratch directory; getExistingName iterates over a Go map, so every query is
 			// repeated and the set of distinct answers is reported
@@ -371,13 +374,10 @@ func main() {
 					return map[string]any{"harness_error": err.Error()}
 				}
 			}
-			ms, err := server.Manifests(true)
-			if err != nil {
-				return map[string]any{"harness_error": err.Error()}
-			}
+			// what is stored, listed independently of the code under test (and of the directory's name)
 			listed := [][]string{}
-			for n := range ms {
-				listed = append(listed, parts(n))
+			for _, e := range storeListing(abs) {
+				listed = append(listed, e.(map[string]any)["parts"].([]string))
 			}
 			reps := hx.Int(c["reps"])
 			var res []any
@@ -389,7 +389,7 @@ func main() {
 				for i := 0; i < reps; i++ {
 					r, err := server.VerifC13GetExistingName(n)
 					if err != nil {
-						return map[string]any{"harness_error": err.Error()}
+						return map[string]any{"listed": listed, "lookup_error": err.Error()}
 					}
 					if k := r.String() + "|" + r.Host + "|" + r.Tag; !seen[k] {
 						seen[k] = true
